@@ -36,6 +36,12 @@ type gzipResponseWriter struct {
 // Content-Encoding / Content-Length decision has been made: the underlying
 // writer snapshots the header map at WriteHeader, later changes are lost.
 func (g *gzipResponseWriter) WriteHeader(code int) {
+	if code >= 100 && code < 200 && code != http.StatusSwitchingProtocols {
+		// an informational response is not the final status: pass it on and keep
+		// waiting for the real one
+		g.ResponseWriter.WriteHeader(code)
+		return
+	}
 	if g.wroteHeader {
 		return
 	}
